@@ -112,6 +112,9 @@ theorem isComment_eq (line : Bytes) : E.isComment line = .ok (H.isCommentLine li
               exact ⟨m, List.mem_of_find?_eq_some hf, List.find?_some hf⟩
             rw [this]; rfl
 
+/-- `inHostsComment` (repair of D16): the two models are the same function. -/
+theorem inHostsComment_eq (text : Bytes) (idx : Nat) : E.inHostsComment text idx = H.inHostsComment text idx := rfl
+
 /-- `findCosmeticRuleMarker`: the two models agree on every line. -/
 theorem findMarkerLoop_eq (markers : List Bytes) (text : Bytes) (fcs : Bytes) :
     E.findMarkerLoop markers text fcs = .ok (H.findCosmeticRuleMarkerWith fcs markers text) := by
@@ -124,19 +127,26 @@ theorem findMarkerLoop_eq (markers : List Bytes) (text : Bytes) (fcs : Bytes) :
     | some startIndex =>
       have hlt : startIndex < text.length := E.indexByte_lt hi
       simp only
-      -- the marker search at startIndex, shared by both branches
-      have hfind : (E.firstMarkerAt text startIndex markers >>= fun x =>
-            match x with
-            | some m => pure (some (startIndex, m))
-            | none => E.findMarkerLoop markers text rest) =
-          .ok (match markers.find? (fun m => H.startsAtIndexWith text startIndex m) with
-            | some m => some (startIndex, m)
-            | none => H.findCosmeticRuleMarkerWith rest markers text) := by
-        rw [firstMarkerAt_eq text startIndex (by omega)]
-        simp only [bind, Except.bind]
-        cases List.find? (fun m => H.startsAtIndexWith text startIndex m) markers with
-        | none => exact ih
-        | some m => rfl
+      -- the `inHostsComment` test (D16) and the marker search at startIndex, shared by both branches
+      have hfind : (if E.inHostsComment text startIndex = true then E.findMarkerLoop markers text rest
+            else E.firstMarkerAt text startIndex markers >>= fun x =>
+              match x with
+              | some m => pure (some (startIndex, m))
+              | none => E.findMarkerLoop markers text rest) =
+          .ok (if H.inHostsComment text startIndex = true then H.findCosmeticRuleMarkerWith rest markers text
+            else match markers.find? (fun m => H.startsAtIndexWith text startIndex m) with
+              | some m => some (startIndex, m)
+              | none => H.findCosmeticRuleMarkerWith rest markers text) := by
+        rw [inHostsComment_eq]
+        cases H.inHostsComment text startIndex with
+        | true => simpa using ih
+        | false =>
+          simp only [Bool.false_eq_true, if_false]
+          rw [firstMarkerAt_eq text startIndex (by omega)]
+          simp only [bind, Except.bind]
+          cases List.find? (fun m => H.startsAtIndexWith text startIndex m) markers with
+          | none => exact ih
+          | some m => rfl
       by_cases h0 : startIndex > 0
       · have hp : startIndex - 1 < text.length := by omega
         have e : E.idxC text (startIndex - 1) = .ok text[startIndex - 1] := E.idxC_ok' hp
